@@ -17,7 +17,7 @@ RULE = ("Hypothesis: well-formed notes on 2 channels over 2-3 pitches (same pitc
         "Non-trivial: a note crosses a boundary or an event sits exactly on a boundary. Distinct by case digest.")
 ASSUMPTIONS = ["an event exactly on a boundary may be in either adjacent piece (same absolute tick)"]
 TIERS = {"quick": dict(shards=8, examples=1500, alt_ppqn=[480], alt_shards=2),
-         "thorough": dict(size=2, shards=16, examples=25000, alt_ppqn=[480, 7, 1000], alt_shards=4)}
+         "thorough": dict(fuzz_runs=20000, fuzz_shards=4, size=2, shards=16, examples=25000, alt_ppqn=[480, 7, 1000], alt_shards=2)}
 
 
 @st.composite
